@@ -23,14 +23,14 @@ CHECKS = {
         category="translation_validation",
         technique="symbolic execution of the OLD generated decoder on the specified wire of the NEW schema (z3 BV), unsat per evolution",
         text="For every evolution (single steps and two-step chains of the two permitted extension steps on every extensible node of the family) the old version's real generated decoder runs symbolically on the specified encoding of the new version's symbolic values; z3 proves every old leaf equals the encoded value; models are replayed natively (new real encoder -> old real decoder).",
-        note="Bounded family F_evo; runtimes covered are listed in evidence coverage.parts (Python now; C via LLVM-IR interpreter and Go via Go-source interpreter as those engines land).",
+        note="Bounded family F_evo; runtimes covered are listed in evidence coverage.parts (Python and C (LLVM IR) now; Go via the Go-source interpreter when present).",
         design="6/C05",
     ),
     "C07": dict(
         category="translation_validation",
         technique="symbolic execution with unconstrained 128-bit integers (z3 BV): out bytes == layout of low n bits",
         text="The real Python encoder runs on messages whose integer leaves are free 128-bit ints; z3 proves the output equals the specified layout of each leaf's low n bits (no bit of another field or of padding changes), the length equals ceil(N/8) and the emitted BYTES_LENGTH equals ceil(N/8).",
-        note="Python part; C memory-containment / arbitrary-storage part is added with the IR interpreter (see coverage.parts). Sanitizer and guard-zone builds named in the quantifier are not used (dynamic technique).",
+        note="Python (unconstrained ints) and C (arbitrary storage of integer fields; every IR load/store bounds-checked against a buffer of exactly BYTES_LENGTH bytes and a struct of exactly sizeof bytes), standard and -O mode. Sanitizer and guard-zone builds named in the quantifier are not used (dynamic technique).",
         design="6/C07",
     ),
     "C12": dict(
@@ -44,7 +44,7 @@ CHECKS = {
         category="translation_validation",
         technique="symbolic execution per grid cell (z3 BV): encode == spec and round trip for ALL values of the leaf",
         text="The property's own finite space {bool, byte, uint1..64, int1..64} x offset 0..7 x 6 positions is enumerated (thorough: completely; quick: fixed slice); for each cell one symbolic run proves encode == specified bits and decode(encode(v)) == v with pad/tail untouched for every value, which subsumes the basis values.",
-        note="Runtimes covered are listed in evidence coverage.parts (Python now; C LE/BE and -O generator, Go as the engines land).",
+        note="Runtimes covered are listed in evidence coverage.parts (Python, C LE/BE at -O0/-O2, C -O generator; Go when the engine is present).",
         design="6/C14",
     ),
     "C08": dict(
@@ -89,6 +89,27 @@ CHECKS = {
         note="The flag space is finite: symbolic execution degenerates to an exhaustive case split (exhaustive: true), schemas are one bounded family; argparse and diagnostic wording are outside.",
         design="6/C17",
     ),
+    "C03": dict(
+        category="translation_validation",
+        technique="symbolic interpretation of clang LLVM IR of generated C + bitproto.c (own interpreter, z3 BV, bounds-checked memory): encode/decode == reference for all values",
+        text="The real generated C and the real bitproto.c are lowered by clang 14 (-O0..-O3, separate and single translation unit) and interpreted symbolically: Encode<Msg> on a struct of symbolic in-range leaves must give the specified bytes, Decode<Msg> of the specified bytes into a zeroed struct must give every field's storage as the sign/zero-extended leaf, for all values; data-dependent branches are if-converted; models are replayed natively through a gcc-built shared object.",
+        note="Bounded by the schema families; trusted: clang front/middle end, my IR interpreter (validated against native gcc code on witness/extreme values every run), z3. Back end and gcc's optimiser are outside.",
+        design="6/C03", engine="llsym",
+    ),
+    "C04": dict(
+        category="translation_validation",
+        technique="symbolic interpretation of clang LLVM IR of `bitproto c -O` output (x86-64 and s390x), Go -O via Go-source interpreter: == reference / standard mode for all values",
+        text="For every traditional schema of the families the -O output is generated with --endian little/big/both, lowered for x86-64 (both preprocessor branches) and s390x, and interpreted symbolically: encode bytes == specified bytes (== standard mode, C03), decode into a zeroed struct == the values, for all values. The Go optimization-mode Encode/Decode statements are interpreted by the Go-source interpreter against the same reference (when that engine is present, see coverage.parts).",
+        note="Go results are interpreter-only (no Go toolchain). C++ compilation of the output is outside.",
+        design="6/C04", engine="llsym",
+    ),
+    "C06": dict(
+        category="translation_validation",
+        technique="symbolic interpretation of clang LLVM IR for a true big-endian target (s390x) with a big-endian memory model: same wire bytes as the little-endian reference",
+        text="The runtime library and generated code are lowered by clang for s390x-linux-gnu (big-endian datalayout; the host-detection macros fire) and interpreted with big-endian storage: encode/decode against the same specified little-endian wire for all values, over the (width x offset x storage size) grid and the structural family; the -O big-endian branch on s390x and forced on x86-64.",
+        note="No big-endian host to run natively: the BE configuration rests on the interpreter core validated on x86-64; counterexamples are reported as interpreter-only unless the forced -DBP_BIG_ENDIAN x86 build can reproduce them (unsigned, prefix-free messages; all -O output).",
+        design="6/C06", engine="llsym",
+    ),
 }
 
 NOT_APPLICABLE = {
@@ -111,7 +132,7 @@ def main():
             "thorough_cmd": f"./check {pid} thorough",
             "evidence_file": f"evidence/{pid}.json",
             "replay_cmd_template": f"./check {pid} --replay {{path}}",
-            "engine": c.get("engine", "vlib"),
+            "engine": c.get("engine", "pysym"),
             "level_claimed": {"category": c["category"], "text": c["text"], "design_ref": c["design"]},
             "level_note": c["note"],
             "technique": c["technique"],
@@ -132,6 +153,7 @@ def main():
             "add_only": True,
         },
         "engines": [
+            {"name": "llsym", "path": "vlib/llsym.py", "serves_properties": ["C03", "C04", "C05", "C06", "C07", "C12", "C14"], "kind_free_text": "symbolic interpreter for clang-14 textual LLVM IR (z3 bit-vectors, concrete pointers, bounds-checked regions, if-conversion, DART forking), x86-64 and s390x data layouts"},
             {"name": "pysym", "path": "vlib/pysym.py", "serves_properties": ["C01", "C02", "C05", "C07", "C08", "C09", "C11", "C12", "C13", "C14", "C17", "C20"], "kind_free_text": "DART-style symbolic execution of the real Python sources with z3 proxies (BV-192 / Int)"},
         ],
         "checks": checks,
